@@ -143,3 +143,66 @@ package algz
 //@   modifies q.head
 //@   ensures old(q.head) == old(q.tail) ==> (result == nil && q.head == old(q.head))
 //@   ensures old(q.head) != old(q.tail) ==> (result == q.nodes[old(q.head) % q.cap] && q.head == wrap32(old(q.head) + 1))
+
+// ---------------------------------------------------------------------------------------------------------------
+// Knapsack (C18): the score table is the optimum of the 0-1 knapsack recurrence.
+// W[k], V[k]: weight and value of item k (ghost sequences defined from weightFunc/valueFunc);
+// kopt(W,V,k,c): the best total value of a selection among the first k items with total weight <= c.
+// ---------------------------------------------------------------------------------------------------------------
+//@ recspec kopt(w seq, v seq, k int, c int) int = ite(k <= 0, 0, ite(w[k-1] <= c, max(kopt(w, v, k-1, c), kopt(w, v, k-1, c - w[k-1]) + v[k-1]), kopt(w, v, k-1, c)))
+
+//@ lemma koptBound(w seq, v seq, k int, c int)
+//@   requires forall j in 0..k: 0 <= v[j] && v[j] < 2147483648
+//@   requires 0 <= k
+//@   decreases k
+//@   ih w, v, k-1, c
+//@   ih w, v, k-1, c - w[k-1]
+//@   ensures 0 <= kopt(w, v, k, c) && kopt(w, v, k, c) <= k * 2147483648
+
+//@ func Knapsack
+//@   noterm
+//@   ghost W = seqdef k: weightFunc(items[k])
+//@   ghost V = seqdef k: valueFunc(items[k])
+//@   requires 0 <= maxWeight && maxWeight < 1099511627776 && len(items) < 2147483648
+//@   requires forall k in 0..len(items): 0 <= weightFunc(items[k]) && 0 <= valueFunc(items[k]) && valueFunc(items[k]) < 2147483648
+//@   uses koptBound
+//@   at end:
+//@     assert dp[maxWeight].score == kopt(W, V, len(items), maxWeight)
+//@   loop 1:
+//@     invariant len(dp) == maxWeight + 1 && fresh(dp) && (cap(tmp) == 0 || fresh(tmp)) && oldUntouched(tmp)
+//@     invariant forall j in 0..maxWeight+1: cap(dp[j].items) == 0 || fresh(dp[j].items)
+//@     invariant forall j in 0..maxWeight+1: dp[j].score == kopt(W, V, idx1, j)
+//@   loop 2:
+//@     invariant len(dp) == maxWeight + 1 && fresh(dp) && (cap(tmp) == 0 || fresh(tmp)) && oldUntouched(tmp) && (w - 1 <= i || i == maxWeight) && i <= maxWeight
+//@     invariant w == W[idx1] && value == V[idx1] && 0 <= w
+//@     invariant forall j in 0..maxWeight+1: cap(dp[j].items) == 0 || fresh(dp[j].items)
+//@     invariant forall j in i+1..maxWeight+1: dp[j].score == kopt(W, V, idx1 + 1, j)
+//@     invariant forall j in 0..i+1: dp[j].score == kopt(W, V, idx1, j)
+
+// ---------------------------------------------------------------------------------------------------------------
+// graph.go helpers (C18): intersect is an order-preserving filter, isSub an exact prefix test.
+// ---------------------------------------------------------------------------------------------------------------
+//@ func intersect
+//@   ghost w = anyseq()
+//@   ghost pos = anyseq()
+//@   ensures (len(result) == 0 || fresh(result)) && len(result) <= len(a)
+//@   ensures forall j in 0..len(result): 0 <= w[j] && w[j] < len(a) && result[j] == a[w[j]] && has(b, a[w[j]])
+//@   ensures forall j in 0..len(result)-1: w[j] < w[j+1]
+//@   ensures forall k in 0..len(a): has(b, a[k]) ==> 0 <= pos[k] && pos[k] < len(result) && w[pos[k]] == k
+//@   loop 1:
+//@     invariant (cap(ret) == 0 || fresh(ret)) && oldUntouched(ret) && len(ret) <= idx1
+//@     invariant forall j in 0..len(ret): 0 <= w[j] && w[j] < idx1 && has(b, a[w[j]])
+//@     invariant forall j in 0..len(ret): ret[j] == a[w[j]]
+//@     invariant forall j in 0..len(ret)-1: w[j] < w[j+1]
+//@     invariant forall k in 0..idx1: has(b, a[k]) ==> 0 <= pos[k] && pos[k] < len(ret) && w[pos[k]] == k
+//@     decreases len(a) - idx1
+//@   at loop1.body-end:
+//@     ghost w = ite(has(b, v), store(w, len(ret)-1, idx1), w)
+//@     ghost pos = ite(has(b, v), store(pos, idx1, len(ret)-1), pos)
+
+//@ func isSub
+//@   noalloc
+//@   ensures result == (len(sub) + 1 == len(super) && forall i in 0..len(sub): super[i] == sub[i])
+//@   loop 1:
+//@     invariant len(super) == len(sub) && forall k in 0..i: super[k] == sub[k]
+//@     decreases len(sub) - i
